@@ -67,8 +67,8 @@ def c06(tier, seed):
                    long_lengths_observed=int(obs.stats.get('can.long_lengths_observed', 0)),
                    long_lengths_model_mismatch=int(obs.stats.get('can.long_lengths_model_mismatch', 0)),
                    rule='exhaustive payload length 0..64 x {classic, FD} x 4 builders (full one-shot, full SetPayload+fields+Finalize, '
-                        'brief one-shot, brief copy+fields+Finalize) x 14 identifier classes (0, 1, 0x7FE..0x801, 2^29-1, ids >= 2^29, '
-                        '...) + %d random ids x payload classes x 2 placements (16 KiB random arena: everything outside the padded '
+                        'brief one-shot, brief copy+fields+Finalize) x 77 identifier cases (0, 1, every id 0x7F0..0x811, every single id bit, '
+                        '2^29-1, ids >= 2^29, ...) + %d random ids x payload classes x 2 placements (16 KiB random arena: everything outside the padded '
                         'message must be unchanged; exact-extent heap message and source under ASan), %d seeds; return value, payload '
                         'length read-back and payload pointer checked.  Lengths 65..2028 are observed and counted only (outside the '
                         'statement).  Non-trivial: distinct (length, builder, variant, identifier class) cells.' % (R, nseeds),
@@ -165,4 +165,5 @@ def c10(tier, seed):
         work.cleanup()
 
 
+BUILDERS = {'vssmon_asan': lambda work: build_vssmon(work), 'canmon_asan': lambda work: vlib.compile_many(work, 'canmon_asan', can_sources(), vlib.ASAN_FLAGS)}
 CHECKS = dict(C06=c06, C07=c07, C08=c08, C09=c09, C10=c10)
